@@ -286,7 +286,7 @@ def _case(inputs, fam, coq=True):
 
 # share of the cases of each family that is also evaluated inside Coq in the quick tier (the model costs ~0.15 s of
 # vm_compute per merge call: Coq strings); the implementation and the oracle run on every case; thorough renders far more
-QUICK_COQ = {"hier3": 0.3, "chain": 0.35, "rand2": 0.38, "rand3": 0.25}
+QUICK_COQ = {"hier3": 0.28, "chain": 0.3, "rand2": 0.36, "rand3": 0.25}
 
 
 def generate(rng, tier):
@@ -880,16 +880,20 @@ MANIFEST = {
                   "type-system model of C10/C11; the model is tied to /repo on every run by evaluating both of its forms inside Coq on "
                   "the tuples the implementation was run on (all argument orders and groupings), and the property statement is run "
                   "directly on the implementation by an independent oracle.",
-    "level_note": "Proved for all well-formed inputs (Props/C13.v, 18 theorems, closed under the global context): the result satisfies the "
-                  "C10/C11 invariant (hierarchy and features), termination within the stated fuel, the only exception is ValueError, "
-                  "contains every declared type and feature, most specific declared supertype, incomparable / contradictory supertypes "
-                  "and differing declarations of a feature on one chain raise ValueError, no reference to an object of an input (ghost "
-                  "owner tags), order independence for inputs without competing supertypes when both orders succeed. Not proved (kept as "
-                  "comments in Props/C13.v; explored by the correspondence over all argument orders and groupings and by the oracle): order "
-                  "independence under the property's side condition with competing supertypes and for regrouping, idempotence / "
-                  "neutrality of the empty type system proper, 'agreeing features never raise', refinement between the two model forms "
-                  "(both evaluated on every case). In the quick tier about a third of the cases is also evaluated in Coq (all in the "
-                  "implementation and the oracle). Trusted: Coq kernel + vm_compute; hand-written models Merge.v / TS.v; the harness.",
+    "level_note": "Proved for all well-formed inputs (Props/C13.v, 43 theorems, closed under the global context; proofs MergeProofs.v .. "
+                  "MergeProofs5.v): the result satisfies the C10/C11 invariant (hierarchy and features), termination within the stated fuel, "
+                  "the only exception is ValueError, contains every declared type and feature, most specific declared supertype, "
+                  "incomparable / contradictory supertypes and differing declarations of a feature on one chain raise ValueError, no "
+                  "reference to an object of an input (ghost owner tags); the hierarchy of a successful merge is the reachability relation "
+                  "of the declared edges; agreeing features add no failure; under the property's side condition (and no inheritance-final "
+                  "declared supertype) success is characterised by the declarations alone, hence success / ValueError and the resulting "
+                  "types, supertypes and effective features are independent of argument order AND of any nesting of merges; two successful "
+                  "merges of the same declarations are equivalent without side condition; replay / idempotence / neutrality of the empty "
+                  "type system for inputs that contain TypeSystem(); the mechanism form of the model (recursion into _children) equals the "
+                  "functional form on well-formed inputs. Limits (witnesses in RefutedC13.v): success is order dependent without the side "
+                  "condition; replay needs DocumentAnnotation in the input; own features that duplicate an inherited one are not stored "
+                  "again. In the quick tier about a third of the cases is also evaluated in Coq (all in the implementation and the "
+                  "oracle). Trusted: Coq kernel + vm_compute; hand-written models Merge.v / TS.v; the harness.",
     "technique": "Coq proof over an executable Gallina model + in-Coq behavioural correspondence (exhaustive small pools, random larger) + direct oracle",
     "design_ref": "DESIGN.md section 5, C13",
 }
